@@ -852,7 +852,7 @@ func (w *World) run(steps int) {
 		}
 	}
 	for s := 0; s < steps; s++ {
-		k := r.Intn(100)
+		k := r.Intn(106) // 99..105: registry refresh
 		if w.mode == "swap" && r.Chance(1, 2) {
 			w.swapStep()
 			continue
@@ -985,6 +985,8 @@ func (w *World) run(steps int) {
 			}
 		case k < 98: // the node and a neighbor part ways for one, two or three blocks, then the node re-syncs
 			w.forkDepthScenario()
+		case k < 99 && w.mode != "honest": // two outputs of one address spent together, the second with a foreign key
+			w.wrongKeyLateScenario()
 		default: // registry refresh
 			ans := map[string]int{}
 			for _, wl := range w.wallets {
@@ -1498,6 +1500,63 @@ func (w *World) forkDepthScenario() {
 	h.Log.Take()
 	res := w.rec.Update(w.now, []*Peer{honestPeer("10.6.6.6:10600", h)})
 	w.stats.Count(fmt.Sprintf("fork-depth=%d payment %s: %s", d, paid[:indexOrLen(paid, ':')], res[:indexOrLen(res, ':')]))
+}
+
+// wrongKeyLateScenario: wallet X owns two confirmed outputs (made here if need be). A transaction spends
+// both: the first input carries X's key and signature, the second a foreign key with that key's own valid
+// signature. Every input is checked against the owner of the output it names, not only the first.
+func (w *World) wrongKeyLateScenario() {
+	host := w.host
+	if len(host.AllBlocks()) < 2 {
+		return
+	}
+	var x *Wallet
+	var pair []spendable
+	busy := w.busyRefs(host)
+	for _, k := range w.r.Perm(len(w.wallets)) {
+		var free []spendable
+		for _, u := range w.confirmed(host, w.wallets[k]) {
+			if u.value > 2*w.set.Fee+8 && !busy[fmt.Sprintf("%s/%d", u.txid, u.idx)] {
+				free = append(free, u)
+			}
+		}
+		if len(free) >= 2 {
+			x, pair = w.wallets[k], free[:2]
+			break
+		}
+	}
+	if x == nil {
+		u := w.bigConfirmed()
+		if u == nil {
+			w.stats.Count("wrong-key-late=nothing to spend")
+			return
+		}
+		x = u.owner
+		third := (u.value - w.set.Fee) / 3
+		tx := w.build(&txPlan{ins: []spendable{*u}, outs: []*JOutput{{x.Addr, false, third}, {x.Addr, false, third}, {x.Addr, false, u.value - w.set.Fee - 2*third - 1}}, ts: w.now})
+		w.rec.Admit(tx)
+		w.tickAll()
+		w.rec.Validate(w.now)
+		w.tickAll()
+		w.rec.Validate(w.now)
+		for _, c := range w.confirmed(host, x) {
+			if c.txid == tx.Id() && len(pair) < 2 && c.value > 2*w.set.Fee+8 {
+				pair = append(pair, c)
+			}
+		}
+		if len(pair) < 2 {
+			w.stats.Count("wrong-key-late=split not confirmed")
+			return
+		}
+	}
+	other := w.wallets[(indexOf(w.wallets, x)+1+w.r.Intn(len(w.wallets)-1))%len(w.wallets)]
+	total := pair[0].value + pair[1].value
+	p := &txPlan{ins: pair, ts: w.now, outs: []*JOutput{{other.Addr, false, total/2 - w.set.Fee}, {x.Addr, false, total - total/2 - 1}}}
+	p.signers = []*Wallet{nil, other}
+	res := w.rec.Admit(w.build(p))
+	w.tickAll()
+	w.rec.Validate(w.now)
+	w.stats.Count("wrong-key-late=second of two inputs of one address signed by a foreign key: " + res[:indexOrLen(res, ':')])
 }
 
 func (w *World) yieldRace() {
